@@ -5,6 +5,7 @@ package main
 import (
 	"encoding/binary"
 	"fmt"
+	"github.com/xelaj/mtproto/zverif/vrand"
 	"strings"
 
 	"github.com/xelaj/mtproto/zverif/freepass"
@@ -31,6 +32,13 @@ func menu(thorough bool) []authsrv.Fault {
 			m = append(m, authsrv.Fault{Where: f, How: fmt.Sprintf("flip:%d", b)})
 		}
 		for _, how := range []string{"fresh", "other", "zero"} {
+			m = append(m, authsrv.Fault{Where: f, How: how})
+		}
+	}
+	// echoes that are the right digits at the wrong place; run on an exchange whose nonce and server_nonce start
+	// with a zero byte (lzBase), where dropping leading zeros makes them look right
+	for _, f := range []string{"resPQ.nonce", "dh.nonce", "dh.server_nonce", "inner.nonce", "inner.server_nonce", "gen.nonce", "gen.server_nonce"} {
+		for _, how := range []string{"shift-left", "shift-right"} {
 			m = append(m, authsrv.Fault{Where: f, How: how})
 		}
 	}
@@ -134,12 +142,27 @@ func main() {
 		for fu := range followUpNames {
 			f := f
 			cfg := base
+			shifted := strings.HasPrefix(f.How, "shift")
+			if shifted {
+				cfg.ServerNonce = append([]byte{0}, base.ServerNonce[:15]...)
+				if f.How == "shift-right" {
+					cfg.ServerNonce = append(append([]byte{}, base.ServerNonce[:15]...), 0)
+				}
+			}
 			cfg.Fault = &f
 			id := "fault " + f.String()
 			if fu > 0 {
 				id += " then " + followUpNames[fu]
 			}
 			sc := hs.Scenario(id, cfg, uint64(3+i%4))
+			if shifted {
+				// the client's own nonce (its first 16-byte draw) starts (ends) with a zero byte too
+				nonce := []byte{0, 0xc1, 0xb2, 0xa3, 0x94, 0x85, 0x76, 0x67, 0x58, 0x49, 0x3a, 0x2b, 0x1c, 0x0d, 0xfe, 0x8f}
+				if f.How == "shift-right" {
+					nonce = append(nonce[1:], 0)
+				}
+				sc.Setup = func(*sess.World) { vrand.Force("bytes", nonce) }
+			}
 			pushed := false
 			sc.AfterConnectFailure = func(w *sess.World) {
 				if fu > 0 && len(w.Net.Conns) > 0 && w.Auth != nil {
